@@ -47,6 +47,7 @@ let body lines =
        let pagei = to_i c.page and sbi = to_i c.sb in
        let ar = { cur = unit_ * 16; recycled = []; recycle = false } in
        let s = ref (init c) in
+       let other = ref (init c) and cur_pool = ref 0 in     (* two pools on ONE policy object: two model states, one arena *)
        let slots : (int, n) Hashtbl.t = Hashtbl.create 64 in
        let slot i = try Hashtbl.find slots i with Not_found -> N0 in
        (* the policy's answer for this op, should it call map(len) *)
@@ -144,6 +145,9 @@ let body lines =
              | Some d -> Printf.printf "c %d\n" (to_i d)
              | None -> print_string "c indet\n")
           | ["recycle"] -> ar.recycle <- true
+          | ["pool"; i] ->
+            let i = if int_of_string i <> 0 then 1 else 0 in
+            if i <> !cur_pool then begin let t = !s in s := !other; other := t; cur_pool := i end
           | ["v"] ->
             List.iteri (fun i b ->
                 Printf.printf "b %d%s\n" i (String.concat "" (List.map (fun a -> " " ^ string_of_int (to_i a)) b)))
